@@ -57,7 +57,7 @@ def run(out, tier, seed, proof):
             out.violation("a valid catalog name is rejected", {"name": n, "impl": a})
     # entry locations
     cats = ["default", "c-1", "C_2", "c-1x"]
-    enames = ["x", "X", "x/y", "../z", "é", "", "a" * 500, "x.pkl", "x-node", " ",
+    enames = ["x", "X", "x/y", "../z", "é", "", "a" * 500, "x.pkl", "x-node", " ", "tree", "tree-node", "tree-node-node", "n", "n-node.pkl",
               "caf\u00e9", "cafe\u0301", "\u00c5", "\u212b", "\u2126", "\u03a9", "\ufb01", "fi", "x ", "x\n"]      # canonically equivalent, different strings
     entries = [(c, e) for c in cats for e in enames]
     r = run_impl_worker("impl_catalog.py", {"entries": entries})["entries"]
@@ -72,6 +72,15 @@ def run(out, tier, seed, proof):
         if o["path"] in seen:
             out.violation("two different (catalog, entry) pairs share one file", {"a": seen[o["path"]], "b": (c, e)})
         seen[o["path"]] = (c, e)
+        if o.get("occupied"):
+            out.violation("the storage location of a new entry is already occupied by a file of another entry (its persisted node)",
+                          {"catalog": c, "entry": e, "location": o["path"]})
+    # where a catalog lives does not depend on the working directory of the session
+    locs = run_impl_worker("impl_catalog.py", {"cwd_locations": True})["cwd_locations"]
+    out.case(["cwd_locations", locs], nontrivial=True)
+    if len(set(locs.values())) != 1 or any(v.startswith("error") for v in locs.values()):
+        out.violation("the same catalog entry resolves to different locations depending on the directory the session is started from",
+                      {"location_by_cwd": locs})
     # round trip through real builds (two sessions)
     vals = ["1", "'text'", "None", "[1, (2, 'a'), {'k': b'bytes'}]", "3.5", "{'é': [None, True]}", "frozenset({1, 2})"]
     items = [(rng.randrange(2), f"e{j}", v) for j, v in enumerate(vals)]
